@@ -26,8 +26,9 @@ pub struct Obs {
     pub panic: Option<String>,
 }
 
-pub const BINDINGS: [&str; 13] = [
+pub const BINDINGS: [&str; 15] = [
     "trait", "modules", "unloaded", "memory", "memory64", "meminfo", "maps", "dump_modules", "func", "lines", "cfi", "win_fd", "win_fpo",
+    "unified_meminfo", "unified_maps",
 ];
 
 /// The documented range of an entry as an Option<Range> -- used ONLY to feed the generic trait directly
@@ -41,7 +42,7 @@ fn doc_range(e: &Entry) -> Option<Range<u64>> {
 
 pub fn fits(binding: &str, entries: &[Entry]) -> bool {
     match binding {
-        "trait" | "memory" | "memory64" | "meminfo" | "maps" => true,
+        "trait" | "memory" | "memory64" | "meminfo" | "maps" | "unified_meminfo" | "unified_maps" => true,
         _ => entries.iter().all(|e| e.size <= u32::MAX as u64),
     }
 }
@@ -130,14 +131,14 @@ fn observe_inner(binding: &str, entries: &[Entry], probes: &[u64]) -> Obs {
                 }
             }
         }
-        "meminfo" | "maps" | "dump_modules" => {
+        "meminfo" | "maps" | "dump_modules" | "unified_meminfo" | "unified_maps" => {
             let endian = test_assembler::Endian::Little;
             let mut d = synth::SynthMinidump::with_endian(endian);
-            if binding == "meminfo" {
+            if binding == "meminfo" || binding == "unified_meminfo" {
                 for e in entries {
                     d = d.add_memory_info(synth::MemoryInfo::new(endian, e.base, e.val, 4, e.size, 0x1000, 4, 0x20000));
                 }
-            } else if binding == "maps" {
+            } else if binding == "maps" || binding == "unified_maps" {
                 let mut text = String::new();
                 for e in entries {
                     // inclusive end; an empty entry is rendered with end < start when possible
@@ -154,7 +155,14 @@ fn observe_inner(binding: &str, entries: &[Entry], probes: &[u64]) -> Obs {
             }
             let bytes = d.finish().expect("synth dump");
             let dump = Minidump::read(&bytes[..]).expect("generated dump reads");
-            if binding == "meminfo" {
+            if binding == "unified_meminfo" || binding == "unified_maps" {
+                // the same tables behind the interface the processor uses
+                let tag = |u: &UnifiedMemoryInfo| match u { UnifiedMemoryInfo::Info(m) => (m.raw.base_address, m.raw.region_size, m.raw.allocation_base, true), UnifiedMemoryInfo::Map(m) => (m.map.address.0, m.map.address.1, m.map.offset, false) };
+                let list = if binding == "unified_meminfo" { UnifiedMemoryInfoList::new(Some(dump.get_stream().unwrap_or_default()), None) } else { UnifiedMemoryInfoList::new(None, Some(dump.get_stream().unwrap_or_default())) }.expect("unified list");
+                o.listing_bs = binding == "unified_meminfo";
+                for u in list.by_addr() { let t = tag(&u); o.listing.push((t.0, t.1, t.2)); }
+                for &a in probes { o.probes.push((a, list.memory_info_at_address(a).map(|u| vec![tag(&u).2]).unwrap_or_default())); }
+            } else if binding == "meminfo" {
                 let list: MinidumpMemoryInfoList = dump.get_stream().unwrap_or_default();
                 o.listing_bs = true;
                 for m in list.by_addr() {
